@@ -90,6 +90,7 @@ class Interp:
         self.notes = []
         self.extra_models = models or {}
         self.inline_derived = False
+        self.tsub = {}   # generic parameter name -> concrete type string, for the body being interpreted
 
     # ------------------------------------------------------------------ values / memory
     def load_ptr(self, st, ptr):
@@ -586,11 +587,36 @@ class Interp:
             fid = self.new_frame(st)
             for i, a in enumerate(args):
                 st.frames[fid][i + 1] = a
-            res = self.run_body(self.f.bodies[path], st, fid, depth + 1, stack)
+            saved = self.tsub
+            gp = fn.get("gparams") or []
+            ta = fn.get("resolved_args") or fn.get("args") or []
+            if gp and len(gp) == len(ta):
+                self.tsub = {g: self.subst(self.f.ty_s(t)) for g, t in zip(gp, ta)}
+            else:
+                self.tsub = {}
+            try:
+                res = self.run_body(self.f.bodies[path], st, fid, depth + 1, stack)
+            finally:
+                self.tsub = saved
             return res
         return self.opaque_call(st, fn, name, args)
 
+    def subst(self, ty_s):
+        """apply the current generic-parameter substitution to a type string (whole-string or bracketed occurrences)"""
+        if not self.tsub:
+            return ty_s
+        if ty_s in self.tsub:
+            return self.tsub[ty_s]
+        out = ty_s
+        for g, c in self.tsub.items():
+            if len(g) <= 2 or g.startswith("impl "):
+                import re as _re
+                out = _re.sub(r"(?<![A-Za-z0-9_:])%s(?![A-Za-z0-9_:])" % _re.escape(g), c.replace("\\", "\\\\"), out)
+        return out
+
     def opaque_call(self, st, fn, name, args):
+        if self.tsub:
+            name = self.subst(name)
         rargs = tuple(self.resolve(st, a) for a in args)
         term = ("call", name, rargs)
         # distinguish repeated identical calls by occurrence index
@@ -666,9 +692,9 @@ class Interp:
             # String -> str, Vec -> slice, Box<T> -> T : keep the same abstract value behind a reference
             return [(st, ("ref", st.alloc(inner)))] if args[0][0] != "ref" else [(st, args[0])]
         if tr == "std::convert::Into" and nm == "into":
-            return self.convert(st, fn, args[0], self.f.ty_s(fn["args"][0]), self.f.ty_s(fn["args"][1]), depth, stack)
+            return self.convert(st, fn, args[0], self.subst(self.f.ty_s(fn["args"][0])), self.subst(self.f.ty_s(fn["args"][1])), depth, stack)
         if tr == "std::convert::TryInto" and nm == "try_into":
-            r = self.convert(st, fn, args[0], self.f.ty_s(fn["args"][0]), self.f.ty_s(fn["args"][1]), depth, stack, trait="std::convert::TryFrom", method="try_from")
+            r = self.convert(st, fn, args[0], self.subst(self.f.ty_s(fn["args"][0])), self.subst(self.f.ty_s(fn["args"][1])), depth, stack, trait="std::convert::TryFrom", method="try_from")
             return r
         if tr == "std::convert::From" and nm == "from" and not fn.get("resolved_local"):
             src = self.f.ty_s(fn["args"][1]) if len(fn["args"]) > 1 else None
@@ -686,6 +712,29 @@ class Interp:
             return [(st, ("box", args[0]))]
         if nm == "new" and p.startswith("std::boxed::Box"):
             return [(st, ("box", args[0]))]
+        if nm == "new_uninit" and p.startswith("std::boxed::Box"):
+            return [(st, ("box", ("sym", "uninit")))]
+        if nm == "box_assume_init_into_vec_unsafe":
+            # vec![a, b, ..] lowering: the array written into the fresh box becomes the vector
+            def find_array(v, depth=0):
+                if depth > 12 or not isinstance(v, tuple):
+                    return None
+                if v and v[0] == "op" and v[1] == "array":
+                    return v
+                for x in v[1:]:
+                    if isinstance(x, tuple):
+                        r = find_array(x, depth + 1) if x and isinstance(x[0], str) else None
+                        if r is None and x and not isinstance(x[0], str):
+                            for y in x:
+                                r = find_array(y, depth + 1) if isinstance(y, tuple) else None
+                                if r:
+                                    break
+                        if r:
+                            return r
+                return None
+            arr = find_array(self.resolve(st, args[0]))
+            if arr is not None:
+                return [(st, ("op", "vec_of", arr[2]))]
         if tr == "std::future::Future" and nm == "poll":
             fut = args[0]
             while fut[0] == "ref":
